@@ -34,6 +34,9 @@ pub struct PanicRecord {
     pub thread: String,
 }
 
+/// upper bound on shrink iterations (end-to-end engines lower it: one evaluation costs milliseconds)
+pub static SHRINK_ITERS: std::sync::atomic::AtomicU32 = std::sync::atomic::AtomicU32::new(20_000);
+
 pub static PANICS: Lazy<Mutex<Vec<PanicRecord>>> = Lazy::new(|| Mutex::new(Vec::new()));
 
 /// Install the process-wide panic hook (idempotent). Panics are recorded, not printed.
@@ -53,6 +56,7 @@ pub fn install_panic_hook() {
                 "non-string panic payload".to_string()
             };
             let thread = std::thread::current().name().unwrap_or("unnamed").to_string();
+            eprintln!("[panic-hook] thread {} at {}: {}", thread, location, message);
             if let Ok(mut p) = PANICS.lock() {
                 p.push(PanicRecord { location, message, thread });
             }
@@ -172,7 +176,7 @@ impl<'a> Drive<'a> {
             cases: cases.min(u32::MAX as u64) as u32,
             failure_persistence: None,
             rng_seed: RngSeed::Fixed(seed),
-            max_shrink_iters: 20_000,
+            max_shrink_iters: SHRINK_ITERS.load(std::sync::atomic::Ordering::Relaxed),
             max_global_rejects: 1_000_000,
             ..Config::default()
         };
